@@ -1,6 +1,13 @@
 package ice
 
-// Added by the /verif build overlay only: exposes the client's TURN URL parser.
+// Added by the /verif build overlay only: exposes the client's TURN URL parser
+// and a Prober constructor for simulated transports.
+
+import (
+	"log/slog"
+
+	"github.com/quic-go/quic-go"
+)
 
 type VerifTurnServer struct {
 	Addr, Username, Password, ServerName string
@@ -10,4 +17,10 @@ type VerifTurnServer struct {
 func VerifParseTurnServer(raw string) (VerifTurnServer, error) {
 	c, err := parseTurnServer(raw)
 	return VerifTurnServer{Addr: c.addr, Username: c.username, Password: c.password, ServerName: c.serverName, UseTCP: c.useTCP, UseTLS: c.useTLS}, err
+}
+
+// VerifNewProber builds a Prober around an existing QUIC transport (no UDP
+// socket, STUN or TURN): ProbeAndDial only uses p.transport.
+func VerifNewProber(tr *quic.Transport, logger *slog.Logger) *Prober {
+	return &Prober{logger: logger, transport: tr}
 }
